@@ -4,13 +4,17 @@ CONSTANTS
   MaxVer = 2
   MaxReorgs = 3
   MaxCrashes = 1
-  Gated = FALSE
+  Gates = {}
+  Interleave = FALSE
   Cfgs <- CfgsSmall
   OraclesFor <- SeedOracles
   ScenLen = 30
   Seeds = {1, 2, 3, 4, 5, 6, 7, 8, 9, 10, 11, 12, 13, 14, 15, 16, 17, 18, 19, 20}
   StartSlots = {0, 1, 2, 3, 4, 5}
   MaxHeads = 2
-  Directed = FALSE
+  Stimuli = {"Start", "Crash", "Advance", "EpochTick", "Reorg", "HeadEvent", "Fire", "Hold", "Unhold", "Release"}
+  MaxHolds = 99
+  Focus = FALSE
+  Disjoint = FALSE
 INVARIANTS Emit
 CHECK_DEADLOCK FALSE
